@@ -112,7 +112,8 @@ def run_pass(pid, tier, seed, spec):
         print(out[-3000:])
         return dict(tool=tool, verdict="inconclusive", why=f"{tool} build failed"), None
     env = env_for(tool)
-    common = ["--tier", tier, "--part", spec.get("part", "all"), "--replay-dir", os.path.join(ROOT, "replays")]
+    common = ["--tier", tier, "--part", spec.get("part", "all"), "--replay-dir", os.path.join(ROOT, "replays"),
+              "--known", os.path.join(ROOT, "known-findings.txt")]
     jobs = []
     if tool == "miri":
         for i in range(spec["shards"]):
